@@ -28,16 +28,19 @@ VARIABLES
     mark,       \* the serial-number level facts at the last Mark event
     regime,     \* [mftdue, objdue]: what the "due" timing values make due
     phase,      \* "normal" / "due": which timing values are in force
+    aggm,       \* [AllCA -> BOOLEAN] the CA's route origin objects are
+                \* aggregated per origin AS (observed)
     lossy       \* the publication server's operator removed a publisher
                 \* in this behaviour (the relying-party level expectations
                 \* do not apply to what the operator took away)
 
-tvars == <<vars, l, rp, keys, ever, mark, regime, phase, lossy>>
+tvars == <<vars, l, rp, keys, ever, mark, regime, phase, lossy, aggm>>
 
 Line == Rec[l]
 
 SetOf(seq) == {seq[i] : i \in 1..Len(seq)}
 Known(rec, c) == c \in DOMAIN rec
+AggOf(a) == [c \in AllCA |-> IF Known(a.pub, c) THEN a.pub[c].agg ELSE FALSE]
 Certs(rec) == [x \in Roles |-> SetOf(rec[x])]
 
 \* the projected state of the line, CA by CA (a CA that was never created
@@ -100,7 +103,9 @@ IsEvent(e) == /\ l <= Len(Rec) /\ Line.ev = e /\ l' = l + 1 /\ rp' = Line.rp
               /\ mark' = (IF e = "Mark" THEN Line.abs.keys ELSE mark)
               /\ regime' = regime
               /\ lossy' = (lossy \/ e = "PubRemove")
+              /\ aggm' = AggOf(Line.abs)
               /\ phase' = (IF e = "RestartDue" THEN "due"
+                           ELSE IF e = "RestartMargin" THEN "margin"
                            ELSE IF e \in {"RestartNormal", "Restart"} THEN "normal"
                            ELSE phase)
 Ok == Line.status = "ok"
@@ -108,7 +113,7 @@ IsError == Line.status = "error"
 
 TraceInit == /\ l = 1 /\ Init /\ rp = [vrps |-> <<>>, problems |-> <<>>]
              /\ keys = NoKeys /\ ever = NoKeys /\ mark = NoKeys
-             /\ regime = [mftdue |-> FALSE, objdue |-> FALSE] /\ phase = "normal" /\ lossy = FALSE
+             /\ regime = [mftdue |-> FALSE, objdue |-> FALSE] /\ phase = "normal" /\ lossy = FALSE /\ aggm = [c \in AllCA |-> FALSE]
 
 \* a new behaviour starts: a fresh instance whose top CA has been set up
 Reset ==
@@ -116,7 +121,7 @@ Reset ==
     /\ rp' = [vrps |-> <<>>, problems |-> <<>>]
     /\ keys' = NoKeys /\ ever' = NoKeys /\ mark' = NoKeys
     /\ regime' = [mftdue |-> Line.mftdue, objdue |-> Line.objdue]
-    /\ phase' = "normal" /\ lossy' = FALSE
+    /\ phase' = "normal" /\ lossy' = FALSE /\ aggm' = [c \in AllCA |-> FALSE]
     /\ exists' = [c \in AllCA |-> c = Top]
     /\ gone' = [c \in AllCA |-> FALSE]
     /\ parent' = [c \in AllCA |-> IF c = Top THEN "ta" ELSE "none"]
@@ -168,6 +173,11 @@ TRoaAdd == IsEvent("RoaAdd") /\ Ok
           /\ RoaAdd(Args.c, <<Args.r[1], Args.r[2]>>) /\ Projected(Line.abs)
 TRoaDel == IsEvent("RoaDel") /\ Ok
           /\ RoaDel(Args.c, <<Args.r[1], Args.r[2]>>) /\ Projected(Line.abs)
+RoaOfStr(x) == CHOOSE r \in Roa : r[1] \o "|" \o r[2] = x
+TRoaDelta == IsEvent("RoaDelta") /\ Ok
+          /\ RoaDelta(Args.c, {RoaOfStr(x) : x \in SetOf(Args.add)},
+                               {RoaOfStr(x) : x \in SetOf(Args.del)})
+          /\ Projected(Line.abs)
 TRollInit == IsEvent("RollInit") /\ Ok
           /\ RollInit(Args.c) /\ Projected(Line.abs)
 \* initiating a roll when no class is in the active state does nothing
@@ -190,11 +200,11 @@ TRepoSyncAll == IsEvent("RepoSyncAll") /\ Ok /\ RepoSyncAll /\ Projected(Line.ab
 TRefused ==
     /\ l <= Len(Rec)
     /\ Line.ev \in {"AddCa", "ChildRes", "ChildSuspend", "ChildUnsuspend",
-                    "ChildRemove", "RoaAdd", "RoaDel", "RollInit",
+                    "ChildRemove", "RoaAdd", "RoaDel", "RoaDelta", "RollInit",
                     "RollActivate", "DeleteCa"}
     /\ IsError /\ l' = l + 1 /\ rp' = Line.rp
     /\ ObserveKeys(Line.abs.keys) /\ mark' = mark /\ regime' = regime
-    /\ phase' = phase /\ lossy' = lossy
+    /\ phase' = phase /\ lossy' = lossy /\ aggm' = AggOf(Line.abs)
     /\ Line.ev = "RollActivate" => RollActivateRefused(Args.c)
     /\ UNCHANGED vars /\ Projected(Line.abs)
 
@@ -229,8 +239,30 @@ TDueTouch == IsEvent("DueTouch") /\ phase = "due"
     /\ UNCHANGED <<exists, gone, parent, ent, cstate, iss, sus, rc, rcv, req, routes, pub,
                    pubknown, pst, rst, kst>>
     /\ Projected(Line.abs)
+\* A maintenance run under a margin that makes only some key sets due: a CA
+\* with a key set (current, staging or old) whose manifest is within the
+\* margin of its next update re-issues the manifests and CRLs of ALL its key
+\* sets; the other CAs do nothing.  (Line.margin is in seconds; the times
+\* are the ones decoded from the published manifests.)
+DueCAs(K, now, margin) ==
+    {K[k].ca : k \in {j \in DOMAIN K : K[j].ca \in AllCA /\ K[j].mft_next < now + margin}}
+TRepublishByMargin == IsEvent("RepublishByMargin") /\ Ok
+    /\ RepublishFor(DueCAs(keys, Line.abs.now, Line.margin)) /\ Projected(Line.abs)
+TExpectByMargin == IsEvent("ExpectByMargin") /\ UNCHANGED vars /\ Projected(Line.abs)
+    /\ DOMAIN mark = DOMAIN Line.abs.keys
+    /\ LET due == DueCAs(mark, Line.abs.now, Line.margin) IN
+       \A k \in DOMAIN mark :
+          IF mark[k].ca \in due
+          THEN /\ Line.abs.keys[k].mft = mark[k].mft + 1
+               /\ Line.abs.keys[k].crl = mark[k].crl + 1
+               /\ Line.abs.keys[k].objs = mark[k].objs
+               /\ Line.abs.keys[k].mft_next >= Line.abs.now + Line.margin
+          ELSE /\ Line.abs.keys[k].mft = mark[k].mft
+               /\ Line.abs.keys[k].objs = mark[k].objs
+               /\ Line.abs.keys[k].mft_next = mark[k].mft_next
 \* a restart (with the due / the normal timing values) changes nothing
-TRestart == (IsEvent("Restart") \/ IsEvent("RestartDue") \/ IsEvent("RestartNormal"))
+TRestart == (IsEvent("Restart") \/ IsEvent("RestartDue") \/ IsEvent("RestartNormal")
+             \/ IsEvent("RestartMargin"))
             /\ Ok /\ UNCHANGED vars /\ Projected(Line.abs)
 TMark == IsEvent("Mark") /\ UNCHANGED vars /\ Projected(Line.abs)
 
@@ -272,10 +304,10 @@ TraceNext ==
     \/ Reset \/ Setup
     \/ TAddCa \/ TChildRes \/ TChildResSame \/ TChildSuspend \/ TChildSuspendNoop
     \/ TChildUnsuspend \/ TChildUnsuspendNoop \/ TChildRemove
-    \/ TRoaAdd \/ TRoaDel \/ TRollInit \/ TRollInitNoop
+    \/ TRoaAdd \/ TRoaDel \/ TRoaDelta \/ TRollInit \/ TRollInitNoop
     \/ TRollActivate \/ TRollActivateNoop \/ TDeleteCa \/ TRefresh
     \/ TRefused \/ TStep \/ TSettled \/ TPubRemove \/ TPubAdd \/ TRepoSyncAll
-    \/ TRepublish \/ TRenew \/ TRestart \/ TDueTouch \/ TMark \/ TExpectSame \/ TExpectReissued \/ TExpectRenewed
+    \/ TRepublish \/ TRenew \/ TRestart \/ TDueTouch \/ TRepublishByMargin \/ TExpectByMargin \/ TMark \/ TExpectSame \/ TExpectReissued \/ TExpectRenewed
 
 TraceSpec == TraceInit /\ [][TraceNext]_tvars
 
@@ -285,9 +317,19 @@ TraceSpec == TraceInit /\ [][TraceNext]_tvars
 \* the relying-party walk over the real repository agrees with what the
 \* specification derives from the published state
 RpVrpsObserved == {<<<<v[1], v[2]>>, v[3]>> : v \in SetOf(rp.vrps)}
+\* (A route origin object that names several prefixes -- aggregation per
+\* origin AS -- is rejected as a whole when one of them is outside the
+\* certificate: until the CA has learnt of its smaller certificate the other
+\* prefixes of that AS are not validated either.)
+RejectedWithSibling(v) ==
+    LET r == v[1]
+        c == v[2]
+    IN  aggm[c] /\ \E x \in {"cur", "old"} : \E r2 \in Products(c, x) :
+                     r2[2] = r[2] /\ Prefix(r2) \notin CertRes(c, x)
 RpMatches ==
     (l > 1 /\ Rec[l - 1].ev \notin {"reset"})
-    => RpVrpsObserved = RpVrps
+    => /\ RpVrpsObserved \subseteq RpVrps
+       /\ \A v \in RpVrps \ RpVrpsObserved : RejectedWithSibling(v)
 
 \* when the harness reports a fixed point the model must agree that
 \* nothing is left to do
